@@ -679,7 +679,7 @@ class C03(AstKindProp):
             except Exception as e:
                 implk = {"raises": exc_kind(e)}
             res.append(("func_kind", {"op": "func_kind", "ir": c["ir"], "emit": bool(c["opts"].get("emit_default_doc", True)), "inline": bool(c["opts"].get("inline_types")),
-                                      "indent_level": int(c["opts"].get("indent_level", 1)), "emit_separating_tab": True}, implk))  # fmt: skip
+                                      "indent_level": int(c["opts"].get("indent_level", 1)), "emit_separating_tab": bool(c["opts"].get("emit_separating_tab", False))}, implk))  # fmt: skip
         # the docstring the function / class emitters build (ToDocstring.lean), on the whole description, with the options
         # of this case and one more combination drawn from the case itself
         from doctrans import emitter_utils
@@ -740,6 +740,8 @@ class C03(AstKindProp):
                 "indent_level": r.choice([0, 1, 2]),
             }
         )
+        if r.random() < 0.4:
+            o["emit_separating_tab"] = r.random() < 0.5  # (left out: the emitter's own default)
         return o
 
     def emit_opts(self, c):
